@@ -33,6 +33,16 @@ CLAIMED = {
         design='5/C27'),
 }
 
+CLAIMED['C01'] = dict(
+    level='proof',
+    text='Ring primitives (gc.cpp/gc.tpp compiled whole, unmodified) proved against CHECK-encoded contracts for rings of every length; '
+         'handle protocol of memory, memoryPool, kernel, stream, device: real constructors/operator=/destructor/setModeX/removeXRef/dontUseRefs/swap/free and the mode '
+         "objects' ring functions and destructors extracted verbatim; inductive step from EVERY invariant state of 2 backend objects and K handles (quick K=2, thorough K=2,3), one group per operation kind: "
+         'invariant preserved, object destroyed exactly once iff last reference lost or freed, no use after delete, free() law, drain leaves no ref-counted object. Histories of any length over K handles follow by induction; tests only run fixed scripts.',
+    note='trusted: CBMC C++ front end (destructor call on delete made explicit by a must-fire rewrite rule, self-tested each run), flattened class skeletons, counting stubs for modeBuffer_t/modeDevice_t callbacks. Bound: K<=3 handles per step, 2 objects. Not reached: modeDevice_t::freeResources, streamTag, backend free paths.',
+    technique='CBMC on mechanically extracted real functions: CHECK-encoded contracts + inductive invariant step',
+    design='5/C01')
+
 PENDING_REASON = 'check not built yet in this session (planned, see DESIGN.md section 5); not claimed until it runs'
 
 
